@@ -151,6 +151,71 @@ func c06Join(wg *sync.WaitGroup) bool {
 	}
 }
 
+// The caller's context as an input of every Ctx entry point (`ctx=<kind>` in the op text; default Background):
+//   after    request-scoped: context.WithCancel, cancelled when the call has returned (`defer cancel()`)
+//   dl<k>    a deadline that is reached after k cleaner ticks (seconds of cleaner time) have passed since the
+//            call returned: dl0 = before the first retry, dl1..dl5 = between the first and the second retry, …
+//            (Err() = DeadlineExceeded; cleaner time is driven by `tick`, so the deadline is driven with it)
+//   pre      cancelled before the call (exec / del only: every cache command of the call fails in the client)
+// Whatever a Ctx entry point leaves behind for later (the cleaner's retry of a failed DEL) must not depend on it.
+type c06DlCtx struct {
+	context.Context
+	mu   sync.Mutex
+	done chan struct{}
+	err  error
+	left int
+}
+
+func (c *c06DlCtx) Done() <-chan struct{} { return c.done }
+func (c *c06DlCtx) Err() error {
+	c.mu.Lock()
+	defer c.mu.Unlock()
+	return c.err
+}
+func (c *c06DlCtx) expire() {
+	c.mu.Lock()
+	if c.err == nil {
+		c.err = context.DeadlineExceeded
+		close(c.done)
+	}
+	c.mu.Unlock()
+}
+
+// c06MakeCtx returns the context of an operation and what happens to it when the call has returned.
+func c06MakeCtx(op []string, pending *[]*c06DlCtx) (context.Context, func()) {
+	kind := c06Opt(op, "ctx", "bg")
+	switch {
+	case kind == "bg":
+		return context.Background(), func() {}
+	case kind == "after":
+		return context.WithCancel(context.Background())
+	case kind == "pre":
+		ctx, cancel := context.WithCancel(context.Background())
+		cancel()
+		return ctx, func() {}
+	case strings.HasPrefix(kind, "dl"):
+		c := &c06DlCtx{Context: context.Background(), done: make(chan struct{}), left: verifh.Atoi(kind[2:])}
+		if c.left == 0 {
+			return c, c.expire
+		}
+		return c, func() { *pending = append(*pending, c) }
+	}
+	panic("bad ctx= in op: " + strings.Join(op, " "))
+}
+
+// c06TickCtx: one cleaner tick has passed.
+func c06TickCtx(pending []*c06DlCtx) []*c06DlCtx {
+	var out []*c06DlCtx
+	for _, c := range pending {
+		if c.left--; c.left <= 0 {
+			c.expire()
+		} else {
+			out = append(out, c)
+		}
+	}
+	return out
+}
+
 func c06Opt(op []string, k, dflt string) string {
 	for _, t := range op {
 		if strings.HasPrefix(t, k+"=") {
@@ -204,7 +269,6 @@ func TestVerifC06(t *testing.T) {
 		rows := map[int]c06Row{}
 		idx := map[int]int{}
 		queries := 0
-		ctx := context.Background()
 		keyer := func(primary any) string { return key(fmt.Sprintf("p%v", primary)) }
 
 		// the result token of a read, cross-checked with Cache.IsNotFound (the cache was built with sql.ErrNoRows
@@ -215,8 +279,11 @@ func TestVerifC06(t *testing.T) {
 			}
 			return res
 		}
+		var dls []*c06DlCtx
 		step := func(op []string) string {
 			timex.VerifAdvance(20 * time.Second)
+			ctx, fin := c06MakeCtx(op, &dls)
+			defer fin()
 			env.Jitter.SetJ(verifh.Atoi(c06Opt(op, "j", "500")))
 			dbfail := c06Opt(op, "db", "0") == "1"
 			pan := func() {
@@ -280,6 +347,14 @@ func TestVerifC06(t *testing.T) {
 				pk := verifh.Atoi(op[1][1:])
 				rkey := key(op[1]) // resolved here: the map behind key() is not for concurrent use
 				n := verifh.Atoi(c06Opt(op, "n", "4"))
+				// `lctx=1`: every reader has its own live context; the query — which runs with the LEADER's context —
+				// has that context cancelled while it is inside and returns its error, as a database driver does: the
+				// followers, whose contexts are alive, receive the leader's error (what the code does: one shared result)
+				lc := c06Opt(op, "lctx", "0") == "1"
+				if lc {
+					dbfail = true
+				}
+				type cancelKey struct{}
 				// `i=a+b+c`: reader r goes through instance number (a, b, c)[r mod 3] — readers of ONE key spread
 				// over several CachedConn. Queries in flight are counted per barrier class the constructors promise
 				// (cache.VerifC06Class: every conn / node instance shares the package-wide barrier).
@@ -316,7 +391,13 @@ func TestVerifC06(t *testing.T) {
 						started++
 						mu.Unlock()
 						var v c06Row
-						err := rc.QueryRowCtx(ctx, &v, rkey, func(ctx context.Context, conn sqlx.SqlConn, v any) error {
+						rctx := ctx
+						if lc {
+							c, cancel := context.WithCancel(context.Background())
+							defer cancel()
+							rctx = context.WithValue(c, cancelKey{}, cancel)
+						}
+						err := rc.QueryRowCtx(rctx, &v, rkey, func(ctx context.Context, conn sqlx.SqlConn, v any) error {
 							mu.Lock()
 							inflight[cls]++
 							total++
@@ -338,6 +419,10 @@ func TestVerifC06(t *testing.T) {
 							mu.Lock()
 							inflight[cls]--
 							mu.Unlock()
+							if lc {
+								ctx.Value(cancelKey{}).(context.CancelFunc)()
+								return ctx.Err()
+							}
 							if dbfail {
 								return errC06DB
 							}
@@ -703,6 +788,7 @@ func TestVerifC06(t *testing.T) {
 				for i := 0; i < n; i++ {
 					timex.VerifAdvance(20 * time.Second)
 					cleaner.Tick()
+					dls = c06TickCtx(dls)
 				}
 				how = "text"
 				res = "ok"
@@ -945,9 +1031,32 @@ func c06RetryLadderScenario() verifh.Section {
 	return verifh.Section{Cfg: "exp=30000000 nf=3000 stale=report nodes=1 type=node place=-", Ops: ops}
 }
 
+// the writer's context, replayed on every run: the first DEL of an Exec / DelCache fails, the writer's context is
+// request-scoped (cancelled when the call returned) or reaches its deadline before the first / between the first
+// and the second / after the second retry; the cleaner's retry must delete the entry as soon as the node is back,
+// whatever became of that context. Node-type (one DEL for all keys) and cluster-type (per-key loop) Redis.
+func c06CtxScenarios() []verifh.Section {
+	ops := []string{"exec p1,x1 put:1:10:1", "qindex x1 j=500"}
+	v := 11
+	for _, c := range []string{"after", "dl0", "dl1", "dl3", "dl6", "bg", "pre"} {
+		ops = append(ops, fmt.Sprintf("exec p1,x1 put:1:%d:1 c=1 ctx=%s", v, c), "tick 1 c=0", "qindex x1 j=500 ctx="+c)
+		v++
+		ops = append(ops, fmt.Sprintf("exec p1,x1 put:1:%d:1 c=1 ctx=%s", v, c), "tick 1 c=1", "tick 4 c=1", "tick 1 c=0", "take p1 ctx="+c, "qindex x1")
+		v++
+		ops = append(ops, "del p1,x1 c=1 ctx="+c, "tick 1 c=1", "tick 5 c=1", "tick 60 c=0", "take p1 j=0 ctx="+c, "get p1 ctx="+c, "set p2 r:2:5:2 ctx="+c, "setx p3 r:3:5:3 2000 ctx="+c)
+	}
+	ops = append(ops, "exec p1,x1 put:1:90:1", "del p1", "ctake p1 n=4 lctx=1", "ctake p1 n=3", "del p1", "ctake p1 n=5 lctx=1 w=1")
+	return []verifh.Section{
+		{Cfg: "exp=20000000 nf=3000000 stale=report nodes=1 type=node place=-", Ops: ops},
+		{Cfg: "exp=20000000 nf=3000000 stale=report nodes=2 type=cluster place=p1:0,x1:0,p2:1,p3:1", Ops: ops},
+		{Cfg: "exp=20000000 nf=3000000 stale=report nodes=2 type=node place=p1:0,x1:1,p2:1,p3:0", Ops: ops},
+	}
+}
+
 func c06Gen(r *verifh.Rng) []verifh.Section {
 	secs := []verifh.Section{c06StaleScenario, c06ClusterScenario, c06NXScenario, c06RetryLadderScenario()}
 	secs = append(secs, c06InstanceScenarios...)
+	secs = append(secs, c06CtxScenarios()...)
 	secs = append(secs, c06OptionScenarios()...)
 	nsec := verifh.Scale(44, 400)
 	offE, offN := r.Intn(100), r.Intn(100)
@@ -1009,6 +1118,10 @@ func c06Gen(r *verifh.Rng) []verifh.Section {
 			if r.Chance(1, 4) {
 				nc = " nc=1" // through the context-free wrapper of the entry point
 			}
+			if nc == "" && r.Chance(1, 2) {
+				// the caller's context: request-scoped (cancelled after the call), deadlines around the retries
+				nc = r.PickS(" ctx=after", " ctx=after", " ctx=dl0", " ctx=dl1", " ctx=dl3", " ctx=dl6", " ctx=dl70", " ctx=pre")
+			}
 			if ni == 1 {
 				return nc
 			}
@@ -1034,7 +1147,11 @@ func c06Gen(r *verifh.Rng) []verifh.Section {
 			case x < 40:
 				ops = append(ops, fmt.Sprintf("qindex x%d%s%s%s", pkey(), c06J(r), c06Mask(r, 4), c06DBFaultP(r))+iv())
 			case x < 43:
-				ops = append(ops, fmt.Sprintf("ctake p%d n=%d%s%s", pkey(), r.Range(2, 6), c06J(r), c06DBFault(r))+ivs())
+				lc := ""
+				if r.Chance(1, 4) {
+					lc = " lctx=1"
+				}
+				ops = append(ops, fmt.Sprintf("ctake p%d n=%d%s%s%s", pkey(), r.Range(2, 6), c06J(r), c06DBFault(r), lc)+ivs())
 			case x < 47:
 				// concurrent readers of several keys, chained second reads, one P / many Ps
 				pool := r.Range(1, nk+1)
